@@ -1236,7 +1236,8 @@ class CryptContext:
         # convert numbers to strings
         elif isinstance(value, numeric_types):
             if isinstance(value, float) and key[2] == "vary_rounds":
-                value = (f"{value:.2f}").rstrip("0") if value else "0"
+                # NOTE: repr() is the shortest string that parses back to the same float
+                value = repr(value) if value else "0"
             else:
                 value = str(value)
 
